@@ -214,14 +214,14 @@ theorem makeStats_eq (input : List Scaffold) (outs : List OutAsm) (cuts : Int) :
 
 /-- `Assembly.fragment_junction_set` as translated: the model's `foldlM` with the same combining step, except that the translator
     turned the call `scffld.fragment_junction_set()` into ONE parameter `r` that does not depend on the loop variable -/
-theorem assemblyJunctionSetSrc_eq (scs : List Scaffold) (r : R (List Junction)) :
+theorem assemblyJunctionSetSrc_eq (scs : List Scaffold) (r : Scaffold → R (List Junction)) :
     Gen.Imp.Assembly_fragment_junction_set scs r
-      = scs.foldlM (fun acc (_ : Scaffold) => do let js ← r; pure (sUnion acc js)) [] := by
+      = scs.foldlM (fun acc (sc : Scaffold) => do let js ← r sc; pure (sUnion acc js)) [] := by
   unfold Gen.Imp.Assembly_fragment_junction_set
   simp only []
-  rw [forIn_foldlM (fun acc (_ : Scaffold) => do let js ← r; pure (sUnion acc js))]
-  · cases List.foldlM (fun acc (_ : Scaffold) => do let js ← r; pure (sUnion acc js)) [] scs <;> rfl
-  · intro x s; cases r <;> rfl
+  rw [forIn_foldlM (fun acc (sc : Scaffold) => do let js ← r sc; pure (sUnion acc js))]
+  · cases List.foldlM (fun acc (sc : Scaffold) => do let js ← r sc; pure (sUnion acc js)) [] scs <;> rfl
+  · intro x s; cases r x <;> rfl
 
 /-- … which is the model's loop when `r` is the junction set of every scaffold -/
 theorem foldlM_const_eq (scs : List Scaffold) (r : R (List Junction)) (h : ∀ s ∈ scs, s.junctionSet = r)
